@@ -512,18 +512,18 @@ Section GoHtmlProofs.
           -- lia.
   Qed.
 
-  (* HtmlEscape(dst, src) = dst ++ HTMLEscape(src), unless rt.GrowSlice panics (excluded by the second hypothesis) *)
+  (* HtmlEscape(dst, src) = dst ++ HTMLEscape(src) for every destination: the panic branch of rt.GrowSlice is
+     unreachable since the request includes len(dst) *)
   Theorem go_html_escape_spec : forall dst cap src,
     length dst <= cap ->
-    (length src * 3 / 2 + 64 < length dst -> length src + 64 <= cap - length dst) ->
     go_html_escape grow ws dst cap src = GoOk (dst ++ html_ref src).
   Proof.
-    intros dst cap src Hd Hnp. unfold go_html_escape, go_html_fuel. rewrite pad64.
+    intros dst cap src Hd. unfold go_html_escape, go_html_fuel. rewrite pad64.
     set (x := length src * 3 / 2) in *.
     destruct (cap - length dst <? length src + 64) eqn:E1.
-    - apply Nat.ltb_lt in E1. destruct (x + 64 <? length dst) eqn:E2.
-      + apply Nat.ltb_lt in E2. specialize (Hnp E2). lia.
-      + apply Nat.ltb_ge in E2. pose proof (grow_ge cap (x + 64)) as Hg.
+    - apply Nat.ltb_lt in E1. destruct (length dst + x + 64 <? length dst) eqn:E2.
+      + apply Nat.ltb_lt in E2. lia.
+      + pose proof (grow_ge cap (length dst + x + 64)) as Hg.
         apply go_loop_spec; lia.
     - apply Nat.ltb_ge in E1. apply go_loop_spec; lia.
   Qed.
@@ -531,10 +531,9 @@ Section GoHtmlProofs.
   (* the bytes already in dst are preserved *)
   Corollary go_html_escape_prefix : forall dst cap src,
     length dst <= cap ->
-    (length src * 3 / 2 + 64 < length dst -> length src + 64 <= cap - length dst) ->
     exists out, go_html_escape grow ws dst cap src = GoOk out /\ firstn (length dst) out = dst.
   Proof.
-    intros dst cap src Hd Hnp. exists (dst ++ html_ref src). split.
+    intros dst cap src Hd. exists (dst ++ html_ref src). split.
     - apply go_html_escape_spec; assumption.
     - apply firstn_len_app.
   Qed.
@@ -543,27 +542,16 @@ End GoHtmlProofs.
 Lemma grow_exact_ge : forall old req, req <= grow_exact old req.
 Proof. intros. unfold grow_exact. apply le_n. Qed.
 
-(* the hypotheses of go_html_escape_spec are satisfiable (both ways: no growth needed / growth without panic) *)
-Example go_html_escape_hyps_ex :
-  (length [34%N] <= 80 /\ (length [60%N] * 3 / 2 + 64 < length [34%N] -> length [60%N] + 64 <= 80 - length [34%N]))
-  /\ (length [34%N] <= 1 /\ (length [60%N] * 3 / 2 + 64 < length [34%N] -> length [60%N] + 64 <= 1 - length [34%N])).
-Proof. vm_compute. repeat split; intros; lia. Qed.
-
 Example go_html_escape_ex :
   go_html_escape grow_exact ws_avx2 [34%N] 1 [60; 97]%N = GoOk [34; 92; 117; 48; 48; 51; 99; 97]%N
   /\ go_html_escape grow_exact ws_sse [34%N] 1 [60; 97]%N = GoOk ([34%N] ++ html_ref [60; 97]%N).
 Proof.
   split; [vm_compute; reflexivity|].
-  apply (go_html_escape_spec grow_exact grow_exact_ge ws_sse ws_sse_pos); vm_compute; intros; lia.
+  apply (go_html_escape_spec grow_exact grow_exact_ge ws_sse ws_sse_pos). vm_compute. lia.
 Qed.
 
-(* Genuine defect of alg.HtmlEscape: when cap(dst) - len(dst) < len(src) + 64 and len(dst) > len(src)*3/2 + 64,
-   rt.GrowSlice is asked for a capacity below the old length and panics; the prefix is not preserved because no
-   result is produced at all. Witness: 65 bytes in a slice of capacity 65, empty src. *)
-Theorem go_html_escape_prefix_refuted :
-  exists dst cap src, length dst <= cap /\ go_html_escape grow_exact ws_avx2 dst cap src = GoPanic.
-Proof.
-  exists (repeat 112%N 65), 65, []. split.
-  - rewrite repeat_length. apply le_n.
-  - vm_compute. reflexivity.
-Qed.
+(* regression witness of the defect repaired by e1e5e27 (65 bytes in a slice of capacity 65, empty src used to
+   make rt.GrowSlice panic): the repaired loop appends nothing and keeps the prefix *)
+Example go_html_escape_regression :
+  go_html_escape grow_exact ws_avx2 (repeat 112%N 65) 65 [] = GoOk (repeat 112%N 65).
+Proof. vm_compute. reflexivity. Qed.
